@@ -79,6 +79,25 @@ func (p *fakePersistAfter) EnqueuePersistAfter(ctx context.Context, ev channelap
 	}
 }
 
+// parkCtx is a caller context whose first Done() call parks: it pins a SubmitLocal
+// caller at the caller-context check (the point where a goroutine could be preempted)
+// until a stop call has returned or the park budget is used up. afterPark is called on
+// the submitter's goroutine when the park ends, i.e. before any admission step.
+type parkCtx struct {
+	context.Context
+	once      sync.Once
+	wait      func()
+	afterPark func()
+}
+
+func (c *parkCtx) Done() <-chan struct{} {
+	c.once.Do(func() {
+		c.wait()
+		c.afterPark()
+	})
+	return c.Context.Done()
+}
+
 func classifyResults(results []channelappend.SendBatchItemResult) int {
 	res := resOK
 	for _, r := range results {
@@ -125,8 +144,11 @@ func runAppend(in input) vh.Result {
 	var tmu sync.Mutex
 	tasks := map[int]*taskInfo{}
 	var nextTask atomic.Int64
-	var pending atomic.Int64 // submit calls in progress
+	var pending atomic.Int64 // submit calls that may already own admission
 	var waiters sync.WaitGroup
+	var stopGen atomic.Int64          // number of stop calls that have returned
+	giveUp := make(chan struct{})     // closed once every legitimately admitted future must be terminal
+	var unresolved atomic.Int64
 
 	submit := func(o op) {
 		task := int(nextTask.Add(1)) - 1
@@ -159,9 +181,31 @@ func runAppend(in input) vh.Result {
 				},
 			}
 		}
-		pending.Add(1)
+		parked := o.K == "psubmit"
+		var ctx context.Context = context.Background()
 		t0 := rec.tick()
-		f, err := g.SubmitLocal(context.Background(), target, items)
+		if parked {
+			gen := stopGen.Load()
+			budget := time.Duration(o.Us) * time.Microsecond
+			if budget <= 0 {
+				budget = 5 * time.Millisecond
+			}
+			ctx = &parkCtx{Context: context.Background(),
+				wait: func() {
+					end := time.Now().Add(budget)
+					for stopGen.Load() == gen && time.Now().Before(end) {
+						time.Sleep(20 * time.Microsecond)
+					}
+				},
+				afterPark: func() {
+					// every admission step of SubmitLocal lies after this point
+					pending.Add(1)
+					t0 = rec.tick()
+				}}
+		} else {
+			pending.Add(1)
+		}
+		f, err := g.SubmitLocal(ctx, target, items)
 		if err == nil {
 			tmu.Lock()
 			tasks[task] = &taskInfo{future: f}
@@ -176,11 +220,19 @@ func runAppend(in input) vh.Result {
 			waiters.Add(1)
 			go func() {
 				defer waiters.Done()
-				ctx, cancel := context.WithTimeout(context.Background(), 20*time.Second)
+				ctx, cancel := context.WithCancel(context.Background())
 				defer cancel()
+				go func() {
+					select {
+					case <-giveUp:
+						cancel()
+					case <-ctx.Done():
+					}
+				}()
 				results, werr := f.Wait(ctx)
 				if werr != nil {
-					return // never completed: no terminal record
+					unresolved.Add(1)
+					return // an admitted future that never resolved: no terminal record
 				}
 				rec.term(task, classifyResults(results), true)
 			}()
@@ -198,6 +250,8 @@ func runAppend(in input) vh.Result {
 		defer cancel()
 		t0 := rec.tick()
 		err := g.Stop(ctx)
+		tr := rec.tick() // the stop call has returned
+		stopGen.Add(1)
 		if err == nil {
 			// evidence: every admitted future already has its terminal results.
 			// (submit calls still in flight were either rejected or completed before
@@ -215,7 +269,12 @@ func runAppend(in input) vh.Result {
 		}
 		t1 := rec.tick()
 		rec.mu.Lock()
-		rec.stops = append(rec.stops, stopRec{t0: t0, t1: t1, ok: err == nil})
+		// (t0, tr): a stop call had returned by tr (admission fence); for a nil return the
+		// second record carries the later stamp taken after the done-evidence
+		rec.stops = append(rec.stops, stopRec{t0: t0, t1: tr, ok: false})
+		if err == nil {
+			rec.stops = append(rec.stops, stopRec{t0: t0, t1: t1, ok: true})
+		}
 		rec.mu.Unlock()
 		return err == nil
 	}
@@ -236,7 +295,7 @@ func runAppend(in input) vh.Result {
 				switch {
 				case o.K == "sleep":
 					spin(o.Us)
-				case t < in.Threads && o.K == "submit":
+				case t < in.Threads && (o.K == "submit" || o.K == "psubmit"):
 					submit(o)
 				case t >= in.Threads && o.K == "stop":
 					stop(o.Us, 10*time.Second)
@@ -246,7 +305,16 @@ func runAppend(in input) vh.Result {
 	}
 	wg.Wait()
 	finalOK := stop(0, 15*time.Second)
-	waiters.Wait()
+	// a nil stop means every admitted future is terminal; anything still unresolved
+	// after a grace period is an admitted send that was lost
+	done := make(chan struct{})
+	go func() { waiters.Wait(); close(done) }()
+	select {
+	case <-done:
+	case <-time.After(400 * time.Millisecond):
+		close(giveUp)
+		<-done
+	}
 	final := true
 	if !finalOK {
 		panic("the final Group.Stop without a deadline did not return: admitted appends are stuck")
@@ -254,7 +322,8 @@ func runAppend(in input) vh.Result {
 	return vh.Result{
 		Coq: rec.caseTerm(1, final),
 		Obs: map[string]any{"tasks": int(nextTask.Load()), "post_commit_calls": pa.calls.Load(),
-			"post_commit_cancelled": pa.cancelled.Load(), "final_stop_ok": finalOK},
+			"post_commit_cancelled": pa.cancelled.Load(), "final_stop_ok": finalOK,
+			"unresolved_admitted_futures": unresolved.Load()},
 		Class:   classOf("append", rec, final),
 		Trivial: len(rec.terms) < 2,
 	}
